@@ -19,10 +19,11 @@ claim('C16', 'table agreement: rustc-resolved enum discriminants / match-arm tab
       'The disassembly *display* code (read_instr_3xx) is not judged.',
       'DESIGN.md §3 C16')
 
-claim('C06', 'table agreement: in-order evaluation of resolved match arms of Context::cheap_supertype_of on the numeric tower, Obj and Never',
+claim('C06', 'table agreement: in-order evaluation of resolved match arms of Context::cheap_supertype_of on the numeric tower, Obj and Never; the union arms of structural_supertype_of read as quantifier formulas and evaluated over a finite model',
       'Decides the tower / top / bottom clauses of the property exhaustively (36 ordered pairs of numeric classes, Obj and Never against every built-in unit type, '
-      'the reflexive prefix, the cheap_subtype_of flip). Structural: a missing pair falls into the final (Absolutely,false) arm, so the rows are necessary and sufficient for the tower.',
-      'Does not decide reflexivity/transitivity over unions, intersections, refinements or containers. Guards other than Type::is_mono_value_class on an arm that can match a tower pair are ANCHOR-LOST.',
+      'the reflexive prefix, the cheap_subtype_of flip). Structural: a missing pair falls into the final (Absolutely,false) arm, so the rows are necessary and sufficient for the tower. '
+      'Also decides that the relation defined by the (Or, Or), (Or, t), (t, Or) arms is reflexive and transitive on every type of a 25-type model (5 atoms, their unions of 2 and 3).',
+      'Does not decide reflexivity/transitivity over intersections, refinements or containers (nor unions beyond the three arms above). Guards other than Type::is_mono_value_class on an arm that can match a tower pair are ANCHOR-LOST.',
       'DESIGN.md §3 C06')
 claim('C11', 'table agreement: precedence/category/associativity tables, reduction-loop comparator, lexer `-` arm',
       'Decides the documented precedence order (ordering constraints, not numbers), left associativity of all binary operators, the category table, the `stacked >= incoming` '
@@ -120,8 +121,9 @@ claim('C02', 'sign-interval abstraction of Python arithmetic over the declared o
       'DESIGN.md §3 C02')
 claim('C26', 'declared operator table (typed HIR of init_builtin_classes) vs abstract sign/integrality semantics of Python and vs the runtime wrapper classes found through the MRO (python ast)',
       'Decides that every operation returns an instance of a class that can hold Python\'s result: sign soundness (no Nat for possibly negative results), integrality '
-      '(one known finding: Int ** negative Int), and agreement of the wrapper applied at run time with the declared class.',
-      'Value-level agreement with the Python built-ins for concrete operands is not decided.',
+      '(one known finding: Int ** negative Int), agreement of the wrapper applied at run time with the declared class, and (C26-op) that every arithmetic / comparison dunder of the '
+      'runtime classes applies its own Python operator in every branch.',
+      'Value-level agreement with the Python built-ins beyond the operator applied (conversions, wrappers of operands) is not decided.',
       'DESIGN.md §3 C26')
 
 claim('C03', 'row-by-row soundness of the comparison-atom arms of is_super_pred_of under a three-orderings model; quantifier structure of the And/Or arms',
